@@ -2,6 +2,7 @@ package props
 
 import (
 	"fmt"
+	"go/token"
 	"go/types"
 	"strings"
 
@@ -66,19 +67,28 @@ func c13Mine(c *Ctx, rel string) {
 		}
 	}
 	r.Floor(K("C13.floor.go-sites"), len(gos), 2, "go statements in Mine")
+	// the body a go statement starts: a closure literal, or a named repository function / method
 	closureOf := func(g *ssa.Go) (*ssa.Function, *ssa.MakeClosure) {
 		if mc, ok := g.Call.Value.(*ssa.MakeClosure); ok {
 			return mc.Fn.(*ssa.Function), mc
 		}
+		if cal := ana.StaticRepoCallee(&g.Call); cal != nil && cal.Blocks != nil {
+			return cal, nil
+		}
 		return nil, nil
 	}
+	type goSite struct {
+		g  *ssa.Go
+		fn *ssa.Function
+		mc *ssa.MakeClosure
+	}
+	var watcherS, workerS goSite
 	var watcher, worker *ssa.Function
 	var watcherGo, workerGo *ssa.Go
-	var workerMC, watcherMC *ssa.MakeClosure
 	for _, g := range gos {
 		fn, mc := closureOf(g)
 		if fn == nil {
-			r.Undec(K("C13.anchor.go"), c.ipos(g), "go statement does not start a closure literal")
+			r.Undec(K("C13.anchor.go"), c.ipos(g), "go statement starts neither a closure literal nor a repository function")
 			continue
 		}
 		r.Fn(ana.ShortFunc(fn))
@@ -91,60 +101,128 @@ func c13Mine(c *Ctx, rel string) {
 			}
 		}
 		if hasSelect {
-			watcher, watcherGo, watcherMC = fn, g, mc
+			watcher, watcherGo, watcherS = fn, g, goSite{g, fn, mc}
 		} else {
-			worker, workerGo, workerMC = fn, g, mc
+			worker, workerGo, workerS = fn, g, goSite{g, fn, mc}
 		}
 	}
 	if watcher == nil || worker == nil {
-		r.Undec(K("C13.anchor.closures"), c.P.Pos(f.Pos()), "expected one watcher closure (with a select) and one worker closure")
+		r.Undec(K("C13.anchor.closures"), c.P.Pos(f.Pos()), "expected one watcher goroutine (with a select) and one worker goroutine")
 		return
 	}
 
 	// ---- shared cells
 	cells := map[*ssa.Alloc]*sharedCell{}
+	share := func(a *ssa.Alloc, g *ssa.Go) {
+		sc := cells[a]
+		if sc == nil {
+			sc = &sharedCell{cell: a, name: a.Comment}
+			cells[a] = sc
+		}
+		sc.goUses = append(sc.goUses, g)
+	}
 	for _, g := range gos {
 		_, mc := closureOf(g)
+		if mc == nil {
+			// a named goroutine function shares what it is handed by address
+			for _, a := range g.Call.Args {
+				switch x := a.(type) {
+				case *ssa.Alloc:
+					share(x, g)
+				case *ssa.Slice: // a view of a local array
+					if al, ok := x.X.(*ssa.Alloc); ok {
+						share(al, g)
+					}
+				}
+			}
+			continue
+		}
 		for _, bd := range mc.Bindings {
 			if a, ok := bd.(*ssa.Alloc); ok {
-				sc := cells[a]
-				if sc == nil {
-					sc = &sharedCell{cell: a, name: a.Comment}
-					cells[a] = sc
-				}
-				sc.goUses = append(sc.goUses, g)
+				share(a, g)
 			} else {
 				r.Viol(K("C13.shared-access.capture"), c.ipos(g), "closure captures a non-cell value %s", bd.Name())
 			}
 		}
 	}
-	r.Floor(K("C13.floor.shared-cells"), len(cells), 3, "cells shared with goroutines")
-	// captured variables are identified by the cell they are bound to, never by their name
-	boundCell := func(mc *ssa.MakeClosure, t *ana.Term) *ssa.Alloc {
-		if t == nil || mc == nil {
-			return nil
-		}
-		fv, ok := t.V.(*ssa.FreeVar)
-		if !ok {
-			return nil
-		}
-		for i, f := range mc.Fn.(*ssa.Function).FreeVars {
-			if f == fv {
-				a, _ := mc.Bindings[i].(*ssa.Alloc)
+	r.Floor(K("C13.floor.shared-cells"), len(cells), 1, "cells shared with goroutines")
+	// Variables are identified by what they denote, never by name. An entity is the make(chan) instruction of a
+	// channel, the cell of a flag / counter / WaitGroup, or a parameter of Mine (the context); inMine resolves a value
+	// of Mine to its entity, inBody a value inside a goroutine body (captured variable or parameter of a named function).
+	var inMine func(v ssa.Value) ssa.Value
+	inMine = func(v ssa.Value) ssa.Value {
+		switch x := v.(type) {
+		case *ssa.UnOp:
+			if a, ok := x.X.(*ssa.Alloc); ok && x.Op == token.MUL {
+				if st := firstStore(a); st != nil {
+					switch st.Val.(type) {
+					case *ssa.MakeChan, *ssa.Parameter:
+						return inMine(st.Val)
+					}
+				}
 				return a
 			}
+		case *ssa.ChangeType:
+			return inMine(x.X)
+		case *ssa.MakeInterface:
+			return inMine(x.X)
 		}
-		return nil
+		return v
 	}
-	var doneCell, ctxCell *ssa.Alloc
-	for a, sc := range cells {
-		switch et := a.Type().(*types.Pointer).Elem().String(); {
-		case et == "uint32" && len(sc.goUses) == 2:
-			doneCell = a
-		case et == "context.Context":
-			if st := firstStore(a); st != nil && len(f.Params) > 1 && st.Val == ssa.Value(f.Params[1]) {
-				ctxCell = a
+	inBody := func(s goSite, v ssa.Value) ssa.Value {
+		binding := func(fv *ssa.FreeVar) ssa.Value {
+			if s.mc == nil {
+				return nil
 			}
+			for i, f := range s.fn.FreeVars {
+				if f == fv && i < len(s.mc.Bindings) {
+					return s.mc.Bindings[i]
+				}
+			}
+			return nil
+		}
+		switch x := v.(type) {
+		case *ssa.UnOp:
+			if fv, ok := x.X.(*ssa.FreeVar); ok && x.Op == token.MUL {
+				if cell, _ := binding(fv).(*ssa.Alloc); cell != nil {
+					if st := firstStore(cell); st != nil {
+						switch st.Val.(type) {
+						case *ssa.MakeChan, *ssa.Parameter:
+							return inMine(st.Val)
+						}
+					}
+					return cell
+				}
+			}
+		case *ssa.FreeVar:
+			if bv := binding(x); bv != nil {
+				return bv
+			}
+		case *ssa.Parameter:
+			for i, p := range s.fn.Params {
+				if p == x && i < len(s.g.Call.Args) {
+					return inMine(s.g.Call.Args[i])
+				}
+			}
+		case *ssa.ChangeType:
+			return x.X
+		}
+		return v
+	}
+	termIn := func(s goSite, t *ana.Term) ssa.Value {
+		if t == nil || t.V == nil {
+			return nil
+		}
+		return inBody(s, t.V)
+	}
+	var doneCell *ssa.Alloc
+	var ctxEnt ssa.Value
+	if len(f.Params) > 1 {
+		ctxEnt = f.Params[1]
+	}
+	for a, sc := range cells {
+		if et := a.Type().(*types.Pointer).Elem().String(); et == "uint32" && len(sc.goUses) == 2 {
+			doneCell = a
 		}
 	}
 
@@ -161,20 +239,28 @@ func c13Mine(c *Ctx, rel string) {
 	pureScan(c, K("C13.shared-access.no-global-writes"), watcher, worker)
 
 	// ---- channels
-	var results, closing *ssa.Alloc
-	var resMake *ssa.MakeChan
-	for a := range cells {
-		if st := firstStore(a); st != nil {
-			if mk, ok := st.Val.(*ssa.MakeChan); ok {
-				if elem := mk.Type().Underlying().(*types.Chan).Elem(); elem.String() == "uint64" {
-					results, resMake = a, mk
-				} else {
-					closing = a
-				}
+	// ---- channels: made by this call, shared with the goroutines (captured or passed)
+	var resMake, closeMake *ssa.MakeChan
+	noteChan := func(v ssa.Value) {
+		if mk, ok := inMine(v).(*ssa.MakeChan); ok && mk.Parent() == f {
+			if elem := mk.Type().Underlying().(*types.Chan).Elem(); elem.String() == "uint64" {
+				resMake = mk
+			} else {
+				closeMake = mk
 			}
 		}
 	}
-	if results == nil || closing == nil {
+	for a := range cells {
+		if st := firstStore(a); st != nil {
+			noteChan(st.Val)
+		}
+	}
+	for _, g := range gos {
+		for _, a := range g.Call.Args {
+			noteChan(a)
+		}
+	}
+	if resMake == nil || closeMake == nil {
 		r.Undec(K("C13.anchor.channels"), c.P.Pos(f.Pos()), "results / closing channels not identified")
 		return
 	}
@@ -279,9 +365,9 @@ func c13Mine(c *Ctx, rel string) {
 	for _, ci := range ana.CallsTo(f, "builtin.close") {
 		t := b.CallTermAt(ci)
 		switch {
-		case chanCellOf(ci.Common().Args[0]) == results:
+		case inMine(ci.Common().Args[0]) == ssa.Value(resMake):
 			closeRes = ci
-		case chanCellOf(ci.Common().Args[0]) == closing:
+		case inMine(ci.Common().Args[0]) == ssa.Value(closeMake):
 			closeClosing = ci
 		default:
 			r.Viol(K("C13.join.close-targets"), c.ipos(ci), "close of an unexpected channel: %s", t)
@@ -302,7 +388,7 @@ func c13Mine(c *Ctx, rel string) {
 			}
 		}
 		// the receive must come from the results channel and happen exactly once, outside loops
-		okJoin = okJoin && chanCellOf(recv.X) == results && recv.CommaOk
+		okJoin = okJoin && inMine(recv.X) == ssa.Value(resMake) && recv.CommaOk
 	}
 	r.Check(okJoin, K("C13.join.wait-close-receive"), c.P.Pos(f.Pos()), "wg.Wait() dominates close(results), which dominates the single `v, ok := <-results`, and every return after spawning")
 
@@ -318,11 +404,11 @@ func c13Mine(c *Ctx, rel string) {
 				if x.Blocking && len(x.States) == 2 {
 					var sawDone, sawClosing bool
 					for _, st := range x.States {
-						t := wb.Of(st.Chan, x)
-						if bd, m := ana.Match("call<(context.Context).Done>(load($c))", t); m && ctxCell != nil && boundCell(watcherMC, bd["$c"]) == ctxCell {
+						// ctx.Done() of Mine's own context, and the closing channel of this call
+						if dc, isCall := st.Chan.(*ssa.Call); isCall && dc.Call.IsInvoke() && dc.Call.Method.Name() == "Done" && ctxEnt != nil && inBody(watcherS, dc.Call.Value) == ctxEnt {
 							sawDone = true
 						}
-						if matches("load(free<closing>)", t) || chanFreeVar(st.Chan) == closing.Comment {
+						if inBody(watcherS, st.Chan) == ssa.Value(closeMake) {
 							sawClosing = true
 						}
 						if st.Dir != types.RecvOnly {
@@ -342,7 +428,7 @@ func c13Mine(c *Ctx, rel string) {
 				if n == "sync/atomic.StoreUint32" {
 					t := wb.CallTermAt(x)
 					bd, m := ana.Match("call<*>($c, 1)", t)
-					doneStore = m && doneCell != nil && boundCell(watcherMC, bd["$c"]) == doneCell
+					doneStore = m && doneCell != nil && termIn(watcherS, bd["$c"]) == ssa.Value(doneCell)
 					// under case 0 (ctx.Done)
 				}
 				if strings.HasPrefix(n, "(*sync.") || n == "time.Sleep" {
@@ -456,7 +542,7 @@ func c13Mine(c *Ctx, rel string) {
 				// done is non-zero afterwards: Store(done, 1), or CompareAndSwap(done, 0, 1) (if it fails done was non-zero already)
 				t := ana.NewBuilder(c.P, worker).CallTermAt(ci)
 				bd, m := ana.MatchAny(t, "call<sync/atomic.StoreUint32>($c, 1)", "call<sync/atomic.CompareAndSwapUint32>($c, 0, 1)")
-				if m && doneCell != nil && boundCell(workerMC, bd["$c"]) == doneCell {
+				if m && doneCell != nil && termIn(workerS, bd["$c"]) == ssa.Value(doneCell) {
 					storeDone = ci
 				}
 			}
@@ -499,7 +585,7 @@ func c13Mine(c *Ctx, rel string) {
 	}
 	r.Check(okMine && nCancel == 1, K("C13.result.mine"), c.P.Pos(f.Pos()), "Mine returns the received nonce when ok, ErrCancelled exactly when the closed channel is empty")
 	_ = spawnLoop
-	_ = workerMC
+	_ = wb
 }
 
 // chanCellOf: value is a load of a channel-holding cell; returns the cell.
